@@ -30,6 +30,147 @@ def levels_index(t):
     return None
 
 
+def count_tracks_level(ctx, W, cr, ev0, hash_bb, child_level):
+    """The pair loop must consume exactly the (padded) children level: with c the node counter tested for oddness,
+    the counter is c+1 on the odd edge (where the zero node is appended to the CHILDREN level, before pairing), then halved, and the pair loop runs
+    0..counter.  Each update of the counter is classified by evaluating its extracted expression as a function of the previous value."""
+    from lib import arith_eval, NotArith
+    P = ctx.prog
+    key = "compute_root/count-tracks-level"
+    loc = cr.loc(hash_bb)
+    inner = min(cr.in_loop(hash_bb), key=lambda l: len(l["body"])) if cr.in_loop(hash_bb) else None
+    outer = max(cr.in_loop(hash_bb), key=lambda l: len(l["body"])) if cr.in_loop(hash_bb) else None
+    if inner is None or outer is None or inner is outer:
+        return ctx.violation("index-algebra", key, "the pairing of children is not a loop nested in the per-level loop", loc)
+    # the parity test and the counter it reads
+    T = None
+    Lc = None
+    for bl in cr.blocks:
+        if bl.term["k"] != "switch" or bl.idx not in outer["body"] or bl.idx in inner["body"]:
+            continue
+        for b2 in [bl.idx] + [p for p in cr.pred(bl.idx)]:
+            for st in cr.blocks[b2].stmts:
+                if st["k"] == "assign" and st["rv"]["k"] == "binop" and st["rv"]["op"] in ("Rem", "BitAnd") and st["rv"]["b"].get("c", {}).get("int") in (2, 1):
+                    if (st["rv"]["op"], st["rv"]["b"]["c"]["int"]) in (("Rem", 2), ("BitAnd", 1)):
+                        src = st["rv"]["a"].get("cp") or st["rv"]["a"].get("mv")
+                        if src and not src.get("p"):
+                            T, Lc = bl.idx, src["l"]
+    if T is None:
+        return ctx.violation("index-algebra", key, "no parity test of the node counter found in the per-level loop (odd levels must be padded)", loc)
+    # follow plain copies back to the user variable
+    for _ in range(4):
+        ds = [d for d in cr.defs().get(Lc, []) if d[2] == "whole"]
+        if len(ds) == 1 and ds[0][1] != "term":
+            rv = cr.blocks[ds[0][0]].stmts[ds[0][1]]["rv"]
+            if rv["k"] == "use" and (rv["op"].get("cp") or rv["op"].get("mv")) and not (rv["op"].get("cp") or rv["op"].get("mv")).get("p"):
+                Lc = (rv["op"].get("cp") or rv["op"].get("mv"))["l"]
+                continue
+        break
+    SYM = ("sym", "count")
+    evs = Ev(P, cr, overrides={Lc: SYM})
+    IN = flow.must_facts(cr, evs)
+    classes = {}
+    grid = list(range(1, 14))
+    for (db, di, kind) in cr.defs().get(Lc, []):
+        if kind != "whole" or db not in cr.reachable():
+            continue
+        t = evs.call_term(db) if di == "term" else evs.rvalue(cr.blocks[db].stmts[di]["rv"], (db, di))
+        t = W.expand(t)
+        if not values.contains(t, lambda x: x == SYM):
+            classes.setdefault("init", []).append((db, t))
+            continue
+        try:
+            vals = [arith_eval(t, {SYM: c}) for c in grid]
+        except NotArith:
+            classes.setdefault("other", []).append((db, t))
+            continue
+        if vals == [c + 1 for c in grid]:
+            classes.setdefault("inc", []).append((db, t))
+        elif vals == [c // 2 for c in grid]:
+            classes.setdefault("halve", []).append((db, t))
+        elif vals == [(c + 1) // 2 for c in grid]:
+            classes.setdefault("halve-ceil", []).append((db, t))
+        elif vals == grid:
+            pass
+        else:
+            classes.setdefault("other", []).append((db, t))
+    hdr = inner["header"]
+    oh = outer["header"]
+    problems = []
+    if classes.get("other"):
+        problems.append("the node counter is updated in an unexpected way: %s" % [fmt(t) for b, t in classes["other"]])
+    inits = classes.get("init", [])
+    okinit = len(inits) >= 1 and all(t[0] == "len" and t[1] == ("index", ("field", ("param", cr.path, 1), "levels"), ("int", 0)) for b, t in inits) and all(b not in outer["body"] for b, t in inits)
+    if not okinit:
+        problems.append("the node counter does not start as levels[0].len(): %s" % [fmt(t) for b, t in inits])
+
+    def odd_at(b):
+        for r in flow.rel_facts_at(IN, b):
+            if r[0] == "Ne" and isinstance(r[1], tuple) and r[1][0] == "bin" and r[1][1] in ("Rem", "BitAnd") and r[1][2] == SYM and r[2] == ("int", 0):
+                return True
+            if r[0] == "Eq" and isinstance(r[1], tuple) and r[1][0] == "bin" and r[1][1] in ("Rem", "BitAnd") and r[1][2] == SYM and r[2] == ("int", 1):
+                return True
+        return False
+
+    halves = classes.get("halve", []) + classes.get("halve-ceil", [])
+    if len(halves) != 1 or halves[0][0] not in outer["body"] or halves[0][0] in inner["body"] or not cr.dominates(halves[0][0], hdr):
+        problems.append("the node counter is not halved exactly once per level before the pairing loop")
+    else:
+        hb = halves[0][0]
+        ceil = bool(classes.get("halve-ceil"))
+        incs = classes.get("inc", [])
+        if ceil and incs:
+            problems.append("the node counter is both incremented and halved rounding up")
+        if not ceil:
+            if len(incs) != 1:
+                problems.append("an odd level is padded but the node counter is %s" % ("never incremented" if not incs else "incremented at %d places" % len(incs)))
+            else:
+                ib = incs[0][0]
+                if not odd_at(ib):
+                    problems.append("the node counter is incremented outside the odd-count branch")
+                if not (cr.reaches(ib, hb, avoid={oh}) and ib not in inner["body"]):
+                    problems.append("the node counter is incremented after it was halved for this level (the level being paired keeps its odd size)")
+    # the zero node goes onto the children level, on the odd edge, before pairing
+    npad = 0
+    for pb, pt in cr.calls():
+        if callee_name(pt["fn"].get("path", "")) != "push":
+            continue
+        a = ev0.call_args(pb)
+        if not (is_call(a[1], "from_elem") or a[1][0] == "repeat"):
+            continue
+        npad += 1
+        tgt = a[0]
+        if not (tgt[0] == "index" and child_level is not None and tgt[2] == child_level):
+            problems.append("the padding node is appended to %s, not to the level whose nodes are paired (%s)" % (fmt(tgt), fmt(child_level)))
+        if not odd_at(pb):
+            problems.append("the padding node is appended outside the odd-count branch")
+        if not (cr.reaches(pb, hdr, avoid={oh}) and pb not in inner["body"]):
+            problems.append("the padding node is appended after the level has been paired")
+    if npad == 0 and not classes.get("halve-ceil"):
+        problems.append("no padding node is appended")
+    # the pairing loop runs 0..counter
+    # the Range the pairing loop iterates is built from the counter after halving (read through the counter symbol)
+    okr = False
+    rngs = []
+    for bl in cr.blocks:
+        if bl.idx in outer["body"] and bl.idx not in inner["body"] and cr.dominates(bl.idx, hdr):
+            for i, st in enumerate(bl.stmts):
+                if st["k"] == "assign" and st["rv"]["k"] == "agg" and str(st["rv"].get("adt", "")).endswith("ops::range::Range"):
+                    rngs.append((bl.idx, i, evs.rvalue(st["rv"], (bl.idx, i))))
+    if len(rngs) == 1:
+        rb, ri, rt = rngs[0]
+        okr = rt[0] == "agg" and rt[2][0] == ("int", 0) and rt[2][1] == SYM
+        if okr and len(halves) == 1:
+            hb = halves[0][0]
+            hidx = [di for (db, di, kind) in cr.defs().get(Lc, []) if db == hb and kind == "whole"]
+            okr = cr.dominates(hb, rb) and (hb != rb or (hidx and hidx[0] != "term" and hidx[0] < ri))
+    if not okr:
+        problems.append("the pairing loop does not run over 0..counter")
+    ctx.check("index-algebra", key, not problems,
+              "counter = levels[0].len(); per level: +1 with a zero node appended to the children level when odd, halved, then 0..counter pairs are hashed",
+              "compute_root does not consume exactly the padded children level: " + "; ".join(problems), loc)
+
+
 def run(ctx):
     W = World(ctx)
     P = ctx.prog
@@ -154,7 +295,7 @@ def run(ctx):
                     okp = child_level == ("bin", "Sub", parent_level, ("int", 1)) or parent_level == ("bin", "Add", child_level, ("int", 1))
                 ctx.check("index-algebra", "compute_root/parent-level", okp, "the parent is pushed to the level above its children",
                           "parent hash is pushed to %s, children come from level %s" % ([fmt(x) for x in tgt], fmt(l1[0]) if l1 else "?"), cr.loc(bb))
-                ctx.check("index-algebra", "compute_root/range-iteration-complete", True, "children are taken over the whole range 0..node_count", "", cr.loc(bb), nontrivial=False)
+                count_tracks_level(ctx, W, cr, ev0, bb, l1[0] if l1 else None)
     # padding guard
     IN = flow.must_facts(cr, ev0)
     pads = 0
